@@ -140,7 +140,10 @@ class C12(RunProp):
 
     def model(self, case: dict, driver: Any) -> Any:
         if case.get("rejected"):
-            return None
+            if case["kind"] != "map" or "onMissing" in case["cfg"]:
+                return None      # an on_missing value outside the enumeration has no counterpart in the model (it is an enum there)
+            return driver.ask({"op": "mapc", "program": case["program"], "values": case["values"], "mapOver": case["mapOver"], "mode": case["mode"],
+                               "mapErr": case["mapErr"], "cfg": case["cfg"], "runner": case["runner"], "k": case.get("k")})
         r = driver.ask(self.request(case))
         if case["kind"] == "map":
             return {"status": "failed" if r["raised"] is not None else "completed", "raised": r["raised"],
@@ -149,7 +152,13 @@ class C12(RunProp):
 
     def compare(self, case: dict, i: Any, m: Any) -> str | None:
         if case.get("rejected"):
-            return None          # option validation is outside the run model: the oracle judges
+            if m is None:
+                return None      # judged by the oracle alone
+            # the checked map of the model (`mapChecked`): rejected with the same class, or run
+            cls = {"other:GraphConfigError": "GraphConfigError"}.get(i.get("raised"), i.get("raised"))
+            if m.get("rejected") != (cls if not i["calls"] and not i["events"] else None):
+                return f"checked map: impl raised {i.get('raised')!r} after {len(i['calls'])} calls / {len(i['events'])} events, model says rejected={m.get('rejected')!r}"
+            return None
         if case.get("badCache") is not None:
             return None          # a failing cache backend is outside the run model: the span-tree oracle judges these cases
         if i["status"] != m["status"]:
